@@ -233,6 +233,11 @@ def timeReference (u : Option String) (t : LPType) : List XmlNode :=
       (if strTruthy t.epoch then [mkEl u "Epoch" [] [] t.epoch] else []))]
   else []
 
+/-- The `units` attribute of a time type's `<Encoding>`. -/
+def unitAttr : Option String → List (String × String)
+  | some x => [("units", x)]
+  | none => []
+
 def writeParameterType (u : Option String) (t : LPType) : LoadM XmlNode :=
   if t.tag == "AbsoluteTimeParameterType" || t.tag == "RelativeTimeParameterType" then
     match t.enc with
@@ -244,7 +249,7 @@ def writeParameterType (u : Option String) (t : LPType) : LoadM XmlNode :=
         | .error e => .error e
         | .ok encEl =>
           .ok (mkEl u t.tag [("name", t.name)]
-            ([mkEl u "Encoding" ((match t.unit with | some x => [("units", x)] | none => []) ++ so) [encEl]]
+            ([mkEl u "Encoding" (unitAttr t.unit ++ so) [encEl]]
               ++ timeReference u t))
     | _ => .error .value
   else
